@@ -20,6 +20,7 @@ const queueSize = 100
 // Watcher transaction store watcher
 type Watcher struct {
 	transactions transactionstore.Store
+	proposals    proposalstore.Store
 	cancel       context.CancelFunc
 	mu           sync.Mutex
 }
@@ -44,6 +45,16 @@ func (w *Watcher) Start(ch chan<- controller.ID) error {
 	go func() {
 		for event := range eventCh {
 			ch <- controller.NewID(event.Transaction.Index)
+			// The transactions that follow this one on one of its targets may be waiting for it to be validated,
+			// committed or applied (serializable isolation): nothing else tells them that it has moved on
+			if w.proposals != nil {
+				for _, proposalID := range event.Transaction.Status.Proposals {
+					proposal, err := w.proposals.Get(ctx, proposalID)
+					if err == nil && proposal.Status.NextIndex != 0 {
+						ch <- controller.NewID(proposal.Status.NextIndex)
+					}
+				}
+			}
 		}
 	}()
 	return nil
